@@ -57,7 +57,8 @@ PROPS = {
     "C03": {
         "streams": ["core", "wire-dec"],
         "rule": "core (encode direction): the library's bytes are parsed with an independent strict BSON walker and compress/zlib; header fields, field order, "
-                "length prefix, no trailing bytes are checked and the inflated payload is compared byte for byte with the payload the Lean model emits. "
+                "length prefix, no trailing bytes are checked and the inflated payload is compared byte for byte with the payload the Lean model emits; intermediate Resolve calls (token R) and "
+                "a second final Resolve must not change what is emitted. "
                 "wire-dec (decode direction): streams from an independent reference encoder (split zero runs, runs crossing metric boundaries, type as "
                 "int32/int64/double, unknown types, interleaved metadata, zlib levels incl. stored, extra top-level fields) decoded by library and model.",
         "level_text": "Theorems (Props/C03.lean): decoder_complete_deltas — every spec-conformant token stream (any splitting/placement of zero runs) decodes to "
@@ -112,9 +113,10 @@ PROPS = {
     },
     "C08": {
         "streams": ["schema"],
-        "rule": "schema: every sequence of length 2..4 (thorough: 5) over a pool of 8 schemas (added/removed/renamed/reordered/nested fields, the pair "
-                "{a:{b},c} / {a,b:{c}}, a type-only change) x {dynamic, streamingDynamic, writer, batch, base, streaming} x N in {1,2,3,10}; random longer "
-                "sequences. Oracle: schema-aware collectors accept everything and decode to the input; others never store a sample under another metric "
+        "rule": "schema: every sequence of length 2..3 (thorough: 4) over a pool of 10 schemas (added/removed/renamed/reordered/nested fields, the pair "
+                "{a:{b},c} / {a,b:{c}}, type-only changes) x {dynamic, streamingDynamic, writer, batch, base, streaming} x N in {1,2,3,10}; random longer "
+                "sequences; GENERATED schema pairs: a random schema tree and the same tree after one structural edit (hoist the last leaf of a sub-document behind it, sink, rename, "
+                "swap, wrap, unwrap, retype, add, remove, metric -> non-metric) in alternating patterns through the schema-aware collectors. Oracle: schema-aware collectors accept everything and decode to the input; others never store a sample under another metric "
                 "count/type; chunk boundaries only at change points and capacity. Distinct = distinct history line.",
         "level_text": "Theorems (Props/C08.lean): schema_key_injective — equal hash input implies equal lists of full metric keys for all documents with C-string "
                       "keys (the lemma the schema-aware collectors rest on; FNV is external); unseparated_keys_collide — the witness that the unrepaired hash input "
@@ -148,9 +150,9 @@ PROPS = {
     "C17": {
         "streams": ["uncompressed"],
         "rule": "uncompressed: every history of length <= 3 (thorough: 4) over {Add of 5 documents (two field counts, nested schemas), unreadable Add, Resolve, "
-                "Reset, Flush, SetMetadata, Info} x {plain, streaming, streamingDynamic} x {bson, json} x batch size {1,2}; random histories of 10-70 operations, "
+                "Reset, Flush, SetMetadata of two different metadata documents, Info} x {plain, streaming, streamingDynamic} x {bson, json} x batch size {1,2}; random histories of 10-70 operations, "
                 "batch sizes 1-4. Oracle: writer ++ Resolve parsed as a BSON sequence / JSON lines = every accepted, not discarded sample, byte-identical (BSON) or "
-                "value-identical per line (JSON), in order, once; pending <= batch size. Distinct = distinct history line.",
+                "value-identical per line (JSON), in order, once; a metadata document in the output is the one currently set; pending <= batch size. Distinct = distinct history line.",
         "level_text": "Theorems (Props/C17.lean): output = metadata (if set) ++ held samples and nothing else; accepted Add appends exactly that document, rejected Add "
                       "changes nothing; pending never exceeds the batch size for every sequence of Adds; Reset keeps encoding and metadata; a streaming flush writes "
                       "exactly the resolved documents once and conserves written ++ pending; the schema-aware variant resets in place (fix F16).",
@@ -176,7 +178,7 @@ PROPS = {
         "streams": ["hdr-stat"],
         "rule": "hdr-stat: random multisets (uniform, log-skewed, clustered at power-of-two boundaries, heavy duplicates, rejected values; n <= 60, thorough: up to 3000) on "
                 "configurations up to 2^21; 17 quantiles per multiset (fixed grid incl. 0.001, 100, >100 plus random), ranks computed by the library's own float expression; "
-                "every multiset split at a random point into merge operands (same and different configurations, both merge orders); rotation schedules of 1-5 windows x 1-12 "
+                "every multiset split at a random point into merge operands (same configuration, a smaller/coarser one, and the same shape at another unit magnitude - lowest and highest scaled by a power of two -, both merge orders); rotation schedules of 1-5 windows x 1-12 "
                 "steps; Export/Import, BSON and JSON round trips. Oracle: exact sorted list. Distinct = distinct (configuration, counts array).",
         "level_text": "Theorems (Props/C13.lean, Lemmas/HdrRank.lean), for every valid configuration, every list of recorded int64 values and every rank: the value at rank r is the "
                       "histogram's representative (highest equivalent value) of the exact order statistic of rank r (quantile_is_order_statistic; with the sorted list spelled out: "
@@ -230,7 +232,8 @@ PROPS = {
         "rule": "sched-err (isolated child, hooks of package verifhook): every failure location of a three-chunk stream (cut in the middle of / 4 bytes into / 1 byte into every "
                 "document, a corrupt chunk at every position) x five reader entry points x {no delay, a 15 ms delay of the goroutine that reaches one of nine named points for the "
                 "k-th time}; plus seeded perturbed schedules (yield / 20 us / 200 us at every point with probability 0.3). Err() is read immediately after Next() returned false "
-                "and again later. Quick runs a third of the systematic schedules (all catcher.Add ones). Distinct = (reader, point, occurrence, stream).",
+                "and again later; streams with two failures that every schedule reaches (a corrupt chunk directly followed by a truncated document): after all goroutines have finished Err() of the "
+                "chunk iterator carries both errors. Quick runs a third of the systematic schedules (all catcher.Add ones). Distinct = (reader, point, occurrence, stream).",
         "level_text": "Theorem err_never_lost (Props/C05.lean): in the transition system of ReadChunks (two producer goroutines, consumer, unbuffered and 2-slot channels, catcher), "
                       "for every input and every schedule without cancellation, once Next has returned false on a failing input Err is non-nil; proved from a 15-clause inductive "
                       "invariant. err_lost_before_fix: with the pinned commit's order (close, then add) a 5-step schedule loses the error (decide). errors_retained: the catcher "
@@ -261,8 +264,8 @@ PROPS = {
     "C19": {
         "streams": ["json", "runtime"],
         "rule": "json: line streams of 1-14 lines over three schemas with schema changes, a malformed line or a line longer than the 64 KiB scanner limit at a random position "
-                "(one third of the cases), sample counts 1-6, flush intervals never / 1-3 ms with a slow reader so that flush timers fire mid-stream. Oracle: nil error only if every "
-                "line was readable and then the decoded output is the numeric projection of every line in order. runtime: real CollectRuntime runs (sample count 10-14, collection "
+                "(one third of the cases), a last line without newline (one third), lines of exactly 65534..65537 and 131072 bytes (terminated and not, classified by bufio.Scanner itself), sample counts 1-6, flush intervals never / 1-3 ms with a slow reader so that flush timers fire mid-stream. Oracle: nil error only if no "
+                "line was malformed and then the decoded output is the numeric projection of EVERY line in order (a long line may be refused with an error or read in full). runtime: real CollectRuntime runs (sample count 10-14, collection "
                 "1-3 ms, flush 5-45 ms, cancellation after 20-170 ms); the files are decoded with ReadMetrics and the id trace is validated against the model. Distinct = distinct case line.",
         "level_text": "Theorems (Props/C19.lean): json_all_or_error — a malformed or unreadable line anywhere, with flush ticks anywhere, means no result (an error); a result means every "
                       "line was accepted; a periodic flush only appends. runtime_ids — for every sequence of collect and flush ticks ending in cancellation the ids in the files are "
@@ -277,7 +280,8 @@ PROPS = {
         "gen": True,
         "rule": "sched-rec (isolated child, 20 s watchdog per case): interval recorder (tickers of 50 us - 2 ms) and synchronized recorder over a raw recorder, 1-8 goroutines x 1-60 "
                 "increments x 1-6 begin/EndTest cycles; one third with the flusher held between its tick and the mutex across EndTest (hook interval.tick), one third with seeded "
-                "perturbation at every schedule point. Observed: every call returns, persisted counters per cycle (monotone, final = G*M), goroutine profile after EndTest/Reset. "
+                "perturbation at every schedule point, one third with a slow collector (every Add takes 0.2-3 ms, EndTest arrives while a flush is in progress). Observed: every call returns, no Add "
+                "completes after EndTest returned, the collector is never called from two goroutines at once, persisted counters per cycle (monotone, final = G*M), goroutine profile after EndTest/Reset. "
                 "Distinct = distinct case line.",
         "level_text": "Theorems (Props/C16.lean): all_lock_balanced — the lock/unlock/return skeleton of every mutex-taking method, REGENERATED from /repo's sources on every run "
                       "(harness/cmd/extract -> Gen/Facts.lean), releases the mutex on every return path (kernel-evaluated); every_path_releases_the_mutex: by the soundness of that checker against an independent path "
@@ -294,7 +298,7 @@ PROPS = {
         "streams": ["conc-coll"],
         "race": True,
         "rule": "conc-coll (harness built with -race, isolated child; a detected data race kills the child and is reported): synchronized collector and buffered-over-synchronized "
-                "collector, 1-16 producers x 1-60 (thorough: up to 200) samples, buffer sizes 0-8, GOMAXPROCS in {1,2,16}, concurrent Info/Resolve/SetMetadata observers; the wrapped "
+                "collector, 1-16 producers x 1-60 (thorough: up to 200) samples, buffer sizes 0-8, GOMAXPROCS in {1,2,16}, concurrent Info/Resolve/SetMetadata observers on the synchronized AND on the buffered collector (with a yielding wrapper between the two); the wrapped "
                 "collector logs the real linearisation order; plus a catcher hammer (2-16 goroutines x 100-2100 errors). Oracle: every acknowledged Add once, per-producer order, decoded "
                 "output = logged order, buffered delivery after cancel. Distinct = distinct case line.",
         "level_text": "Theorems (Props/C10.lean) for every schedule, any number of producers and samples: what the wrapped collector received from a producer is exactly what that producer "
@@ -308,10 +312,11 @@ PROPS = {
     },
     "C15": {
         "streams": ["recorder"],
-        "rule": "recorder: every call sequence of length <= 2 (thorough: 3) over a 16-call alphabet (four increments incl. an out-of-range histogram value, three gauge setters, Begin/"
-                "EndIteration, SetTime, SetDuration, SetTotalDuration, SetID, EndTest, Reset), each followed by EndTest, x ten constructors (raw, single, grouped, interval, four "
+        "rule": "recorder: every call sequence of length <= 2 (thorough: 3) over a 23-call alphabet (four increments incl. an out-of-range histogram value, three gauge setters, zero-valued "
+                "arguments of all of them, Begin/"
+                "EndIteration, SetTime, SetDuration, SetTotalDuration, SetID, EndTest, Reset), each followed by EndTest and also run inside a persisted iteration after non-zero gauges and counters, x ten constructors (raw, single, grouped, interval, four "
                 "histogram variants, synchronized and stdlib-shim wrappers) x intervals {0, 1 h}; random sequences of 5-45 calls with a snapshotting collector failing on chosen Add "
-                "calls. Explicit durations are whole seconds, so elapsed-time parts (bounded against the wall clock by the oracle) do not disturb the comparison. Distinct = case line.",
+                "calls. Independent oracle: every persisted sample carries the last gauge/id set and the sums of the increments. Explicit durations are whole seconds, so elapsed-time parts (bounded against the wall clock by the oracle) do not disturb the comparison. Distinct = case line.",
         "level_text": "Theorems (Props/C15.lean) for every state and kind of the reference model: only EndIteration/EndTest can persist; single/interval kinds never persist at EndIteration; "
                       "raw persists at every EndIteration; grouped exactly when the interval has elapsed; increments add exactly their argument to their own counter; setters leave "
                       "counters alone; gauges are the last value set; after EndTest or Reset everything but the gauges is zero; EndTest returns the accumulated error count (plus its own "
